@@ -593,7 +593,9 @@ func (e c19Expr) inDomain() bool {
 // generators
 
 var c19Keys = []string{"source", "gene", "CDS", "exon"}
-var c19Names = []string{"gene", "note", "product", "pseudo"}
+// names with capitals too: INSDC has EC_number, PCR_primers, ncRNA_class … (seeded change W8-2: the clause name
+// lower-cased before the look-up)
+var c19Names = []string{"gene", "note", "product", "pseudo", "EC_number", "ncRNA_class"}
 var c19Vals = []string{"a", "b", "x y", "thrL", "", "a=b", "a/b", "note", "gene", "ab"}
 var c19Lits = []string{"", "a", "b", "x", "thr", "note", "gene", "a=b", "y", "zz", "ab", " "}
 
@@ -712,7 +714,7 @@ func c19GenExpr(r *rng, depth, L int) c19Expr {
 	case 10:
 		return c19Expr{op: "rev"}
 	case 11:
-		return c19Expr{op: "qual", s: []string{"", "note", "gene", "pseudo"}[r.intn(4)], s2: r.pick(c19Lits)}
+		return c19Expr{op: "qual", s: []string{"", "note", "gene", "pseudo", "EC_number", "ec_number", "ncRNA_class"}[r.intn(7)], s2: r.pick(c19Lits)}
 	case 12:
 		return c19Expr{op: []string{"true", "false"}[r.intn(2)]}
 	}
